@@ -405,12 +405,27 @@ impl Storage {
         let key = Key::Meta(LAST_STATE_KEY).into_vec();
         let mut value = total_difficulty.to_le_bytes().to_vec();
         value.extend(tip_header.as_slice());
-        #[cfg(feature = "verif")]
-        crate::verif_hooks::at(crate::verif_hooks::Point::BeforeWrite("put_last_state"));
-        self.db
+        // The tip and the headers before it belong together: write them atomically.
+        let mut batch = self.batch();
+        batch
             .put(key, &value)
-            .expect("db put last state should be ok");
-        self.update_last_n_headers(last_n_headers);
+            .expect("batch put last state should be ok");
+        batch
+            .put(
+                Key::Meta(LAST_N_HEADERS_KEY).into_vec(),
+                Self::encode_last_n_headers(last_n_headers),
+            )
+            .expect("batch put last n headers should be ok");
+        batch.commit().expect("db put last state should be ok");
+    }
+
+    fn encode_last_n_headers(headers: &[HeaderView]) -> Vec<u8> {
+        let mut value: Vec<u8> = Vec::with_capacity(headers.len() * 40);
+        for header in headers {
+            value.extend(header.number().to_le_bytes());
+            value.extend(header.hash().as_slice());
+        }
+        value
     }
 
     pub fn get_last_state(&self) -> (U256, Header) {
@@ -428,19 +443,6 @@ impl Storage {
             .expect("tip header should be inited")
     }
 
-    pub fn update_last_n_headers(&self, headers: &[HeaderView]) {
-        let key = Key::Meta(LAST_N_HEADERS_KEY).into_vec();
-        let mut value: Vec<u8> = Vec::with_capacity(headers.len() * 40);
-        for header in headers {
-            value.extend(header.number().to_le_bytes());
-            value.extend(header.hash().as_slice());
-        }
-        #[cfg(feature = "verif")]
-        crate::verif_hooks::at(crate::verif_hooks::Point::BeforeWrite("put_last_n_headers"));
-        self.db
-            .put(key, &value)
-            .expect("db put last n headers should be ok");
-    }
     pub fn get_last_n_headers(&self) -> Vec<(u64, Byte32)> {
         let key = Key::Meta(LAST_N_HEADERS_KEY).into_vec();
         self.db
